@@ -30,7 +30,7 @@ ANCHORS = [
     "acnportal.acnsim.network.current:Current.__sub__",
     "acnportal.acnsim.network.charging_network:ChargingNetwork.is_feasible",
 ]
-REQUIRED = ["accepted_schedules_judged", "boundary_points", "vertex_points", "structure_walks", "site:caltech", "site:jpl", "site:office001",
+REQUIRED = ["accepted_schedules_judged", "boundary_points", "vertex_points", "structure_walks", "site:caltech", "site:caltech-via-deprecated-alias", "site:jpl", "site:office001",
             "evse:basic", "evse:real", "cap:default", "cap:scaled", "sim_columns_judged", "linear_mode_points", "multi_period_matrices", "multi_period_accepted", "transformer_power_within_1pct_of_rating",
             "panel_or_pod_binding"]
 BUDGET_S = {"quick": 240, "thorough": 3000}
@@ -59,9 +59,15 @@ def wiring(site, ids, caps):
                        ("Fourth Floor Panel", lambda s: s.startswith("AG-4F"), 225.0)]}
 
 
-def build_site(site, basic, caps):
+def build_site(site, basic, caps, alias=None):
     from acnportal.acnsim.network.sites import caltech_acn, jpl_acn, office001_acn
     if site == "caltech":
+        if alias:
+            import contextlib
+            import io
+            from acnportal.acnsim.network.sites import CaltechACN
+            with contextlib.redirect_stdout(io.StringIO()):  # the alias prints a deprecation note
+                return CaltechACN(basic_evse=basic, transformer_cap=caps[0]) if alias == "kw" else CaltechACN(basic, 208, caps[0])
         return caltech_acn(basic_evse=basic, transformer_cap=caps[0])
     if site == "office001":
         return office001_acn(basic_evse=basic, transformer_cap=caps[0])
@@ -80,7 +86,7 @@ def cases(seed, tier):
             for tag, caps in capsets:
                 for r in range(reps):
                     out.append({"site": site, "basic": basic, "caps": list(caps), "captag": tag, "ndirs": nd, "seed": rng.randrange(1 << 30),
-                                "sim": r == 0})
+                                "sim": r == 0, "alias": (rng.choice(["kw", "pos"]) if site == "caltech" and r == 1 else None)})
     return out
 
 
@@ -173,7 +179,10 @@ def run_case(case, obs):
     site, basic, caps = case["site"], case["basic"], case["caps"]
     rng = random.Random(case["seed"])
     nrng = np.random.default_rng(case["seed"])
-    net = build_site(site, basic, caps)
+    alias = case.get("alias")
+    net = build_site(site, basic, caps, alias=alias)
+    if alias:
+        obs.ev("site:caltech-via-deprecated-alias")
     ids = list(net.station_ids)
     n = len(ids)
     ang = [float(net.phase_angles[x]) for x in ids]
